@@ -1947,6 +1947,15 @@ class Enumerator:
             recv = render(call.func.value)
             if self.cfg.is_lock(recv, st):
                 if call.func.attr == "acquire":
+                    # acquire(timeout=t) / acquire(False) / acquire(blocking=False) may give up: the lock is held only where the
+                    # call answered True
+                    kw_ = {k.arg: k.value for k in call.keywords if k.arg}
+                    may_fail = "timeout" in kw_ or len(call.args) > 1 or (call.args and not (isinstance(call.args[0], ast.Constant) and call.args[0].value is True)) or ("blocking" in kw_ and not (isinstance(kw_["blocking"], ast.Constant) and kw_["blocking"].value is True))
+                    if may_fail:
+                        failed = st.fork()
+                        self.emit(failed, "call", render(call) + "  [gave up]", orig, func=ftext, args=[render(a) for a in call.args], kwargs={k: render(v) for k, v in kw_.items()}, term=call)
+                        self._acquire(st, recv, orig, via="call")
+                        return [(st, ast.Constant(True), None), (failed, ast.Constant(False), None)]
                     self._acquire(st, recv, orig, via="call")
                     return [(st, call, None)]
                 if call.func.attr == "release":
